@@ -68,11 +68,20 @@ func Resolve(cc *ssa.CallCommon) Callee {
 		}
 		return c
 	}
-	// dynamic call: value loaded from a struct field?
-	if f := FieldOfValue(cc.Value); f != nil {
-		return Callee{Field: f}
+	// dynamic call: a seam that production code fills with one function
+	// only is a call of that function (see alias.go)
+	var c Callee
+	if fn := AliasOf(cc.Value); fn != nil {
+		c.Func = funcObj(fn)
+		if fn.Synthetic == "" {
+			c.Fn = fn
+		}
 	}
-	return Callee{}
+	// value loaded from a struct field?
+	if f := FieldOfValue(cc.Value); f != nil {
+		c.Field = f
+	}
+	return c
 }
 
 // FieldOfValue: when v is (a load of) a struct field, the field object.
@@ -166,4 +175,53 @@ func WithClosures(fn *ssa.Function) []*ssa.Function {
 		out = append(out, WithClosures(a)...)
 	}
 	return out
+}
+
+// NarrowedInvoke reports whether an invoke of interface method im (declared by
+// a module interface I') can be a call of o: a "narrowed dependency" - a
+// function that used to take a big interface or a concrete type now takes a
+// small interface naming just the methods it uses, and is still handed the
+// same value. o is either a method of an interface I whose method set
+// includes I' (same name, identical signature), or a concrete method whose
+// receiver type implements I'. For generic types the check is by name and
+// arity within one package (instantiation is not tracked).
+func NarrowedInvoke(im, o *types.Func) bool {
+	if im == nil || o == nil || im.Name() != o.Name() {
+		return false
+	}
+	isig, ok1 := im.Type().(*types.Signature)
+	osig, ok2 := o.Type().(*types.Signature)
+	if !ok1 || !ok2 || isig.Recv() == nil || osig.Recv() == nil {
+		return false
+	}
+	it, ok := isig.Recv().Type().Underlying().(*types.Interface)
+	if !ok {
+		return false
+	}
+	generic := func(t types.Type) bool {
+		if p, ok := t.(*types.Pointer); ok {
+			t = p.Elem()
+		}
+		n, ok := t.(*types.Named)
+		return ok && n.TypeParams() != nil && n.TypeParams().Len() > 0
+	}
+	ort := osig.Recv().Type()
+	if generic(isig.Recv().Type()) || generic(ort) {
+		return im.Pkg() == o.Pkg() && isig.Params().Len() == osig.Params().Len() && isig.Results().Len() == osig.Results().Len()
+	}
+	same := types.Identical(types.NewSignatureType(nil, nil, nil, isig.Params(), isig.Results(), isig.Variadic()),
+		types.NewSignatureType(nil, nil, nil, osig.Params(), osig.Results(), osig.Variadic()))
+	if !same {
+		return false
+	}
+	if oi, isI := ort.Underlying().(*types.Interface); isI {
+		return oi != it && types.Implements(ort, it)
+	}
+	if types.Implements(ort, it) {
+		return true
+	}
+	if _, isPtr := ort.(*types.Pointer); !isPtr {
+		return types.Implements(types.NewPointer(ort), it)
+	}
+	return false
 }
